@@ -50,6 +50,7 @@ CORPUS = ['return 5 print 1', 'return', 'assign t -8:00', 'hue -8:00', 'assign t
           '[', ']', '{', '}', '(', ')', '"', '""', '# only a comment', '', ' ', '\n\n', 'print {1 +}', 'print {+ 1}', 'print {1 2}', 'print {()}', 'print {not}',
           'print {not 1}', 'print {1 and}', 'print {1 < 2 < 3}', 'print {"a" + "b"}', 'print {"a" == "a"}', 'assign s "a" print {s + 1}', 'print {2 ^ 0.5}', 'print {0 ^ -1}',
           'print {1 % 0}', 'print {10 ^ 400}', 'repeat 1000000000 begin end', 'define f begin [f] end', 'assign x 1 define f with x begin return x end print [f]',
+          'assign w {2 ^ 3 ^ 2} print w', 'print {2 ^ 1 ^ 2 ^ 1}', 'print {1 - 2 - 3 - 4}', 'print {2 * 3 ^ 2 ^ 1 * 2}', 'print {1 < 2 < 3 < 4}',
           'hue {{1 + 2} + 3} print hue', 'assign x {{4}} print x', 'print {3 * {1 + {2}}}', 'print {[round {1.5}] + {2}}', 'if {{1 < 2} and {2 < 3}} on all',
           'on default', 'off default', 'on "Top" row 1', 'off "Top" column 1 2', 'on "Top" begin stage row 1 end', 'define u1 zz', 'define u2 zz print u2',
           'assign n1 not 5 print n1', 'if not 0 print 1', 'hue not 0 print hue', 'repeat while not 1 begin on all end', 'printf "{}" not 1',
@@ -69,6 +70,13 @@ EXPR_FRAMES = ['print {%s}', 'hue {%s}', 'assign y {%s} print y', 'if {%s} on al
 def expr_soup(rng):
     """Token soup where a value is expected: most texts are rejected, the accepted ones must run without a VM fault."""
     body = ' '.join(rng.choice(EXPR_VOCAB) for _ in range(rng.randint(1, 9)))
+    if rng.random() < 0.2:
+        # well-formed chains of one or two operators: the compiler has to come back from every one of them
+        ops = [rng.choice(['+', '-', '*', '/', '%', '^', 'and', 'or', '<', '==', '!='])]
+        ops.append(rng.choice(ops + ['^', '*', '-']))
+        towers = '^' in ops                  # (a tower of four powers would take the VM's arithmetic for ever: keep them short and low)
+        body = ' '.join('%s %s' % (rng.choice(['2', '1', 'x'] if towers else ['2', '3', 'x', '1.5', '(1 + x)']), rng.choice(ops))
+                        for _ in range(rng.randint(2, 2 if towers else 5))) + ' 2'
     return 'assign x 3 assign s "t" define f with a begin return a end\n' + rng.choice(EXPR_FRAMES) % body
 
 
@@ -236,11 +244,18 @@ def run(report, replay=None):
         inputs.append(('corpus', '', 'hue 5 set all\n' + text + '\non all'))
     world = runner.World(gen_lang.gen_population(random.Random(5), 6, min_lights=4))
     batch, meta = [], {}
+    hangs = 0
     for cls, rule, text in inputs:
         rec, detail = one(world, text, rule)
         rec['id'] = len(batch)
         batch.append(rec)
         meta[rec['id']] = (cls, rule, text, detail)
+        hangs += bool(rec['hung'])
+        if hangs >= 3:
+            # every hung compile or run leaves a spinning thread behind: three are reported, the rest of the inputs
+            # would only be slowed down by them
+            report.notes['stopped_after_three_hangs_at_input'] = len(batch)
+            break
     world.close()
     shards = tlc.split(batch, 16)
     results = tlc.run_sharded('TraceCompile', shards, timeout=1500)
